@@ -372,6 +372,13 @@ class Gen:
             return ("collect", sub() if rng.random() < 0.9 else None)
         if r < 0.50:
             op = rng.choice(["add", "add", "sub", "mul", "mod", "eq", "ne", "lt", "le", "gt", "ge", "and", "or", "alt"])
+            k = rng.random()
+            if k < 0.08 and op in ("lt", "le", "gt", "ge", "eq", "ne", "sub", "add"):
+                # integers that only differ beyond binary64 precision must still be told apart
+                return (op, lit(rng.choice([9007199254740993, 9007199254740992, 9007199254740991])), lit(rng.choice([9007199254740993, 9007199254740992])))
+            if k < 0.16:
+                # the context is the document root followed by inner nodes: the operator still works per input node
+                return ("pipe", ("union", ("self",), self.path(1)), (op, self.scalar(0, vs), self.scalar(0, vs)))
             return (op, self.scalar(d - 1, vs), self.scalar(d - 1, vs))
         if r < 0.58:
             return (rng.choice(["select", "select", "map", "filter", "any_c", "all_c"]), sub())
